@@ -568,6 +568,9 @@ func vlHistory(t *testing.T, enc *json.Encoder, hist int, rng *rand.Rand, nblock
 		v := valid
 		prevValid = &v
 	}
+	if !diverged && hist%2 == 1 {
+		vlEarly(t, P, F, sec, otherSec, keyOf, owners[1].addr, offer)
+	}
 }
 
 func vlZeroFee(*coin.Transaction) (uint64, error) { return 0, nil }
@@ -584,6 +587,12 @@ func vlLegacy(t *testing.T, F *vlNode, wb coin.Block, sec cipher.SecKey, keyOf m
 		return
 	}
 	big, sib := uxs[0], uxs[1]
+	if _, ok := keyOf[big.Body.Address]; !ok {
+		return // paid to the null address: nobody can spend it
+	}
+	if _, ok := keyOf[sib.Body.Address]; !ok {
+		return
+	}
 	hand := func(txns coin.Transactions, when uint64) coin.SignedBlock {
 		var head *coin.SignedBlock
 		var uxh cipher.SHA256
@@ -635,5 +644,92 @@ func vlLegacy(t *testing.T, F *vlNode, wb coin.Block, sec cipher.SecKey, keyOf m
 	if offer("legacy-overflow-input-hours-1", hand(coin.Transactions{spend([]coin.UxOut{x, big}, 2)}, t1+3600), true, true, nil) {
 		return
 	}
+	// the overflowing input's COINS still count: a transaction that pays out only the ordinary input's coins destroys coins
+	destroy := spend([]coin.UxOut{x, big}, 1)
+	destroy.Out[0].Coins = x.Body.Coins
+	destroy.Sigs = nil
+	destroy.SignInputs([]cipher.SecKey{keyOf[x.Body.Address], keyOf[big.Body.Address]})
+	if err := destroy.UpdateHeader(); err != nil {
+		t.Fatal(err)
+	}
+	if offer("legacy-overflow-input-coins-destroyed", hand(coin.Transactions{destroy}, t1+3600), true, true, nil) {
+		return
+	}
 	offer("legacy-overflow-input-hours-0", hand(coin.Transactions{spend([]coin.UxOut{x, big}, 1)}, t1+3600), true, true, nil)
+}
+
+// vlEarly ends an undiverged history with a block that arrives before its predecessor: the publisher (which is one block ahead
+// for the occasion) makes blocks k+1 and k+2; the follower is offered k+2 (a genuine, correctly signed block - but not the next
+// one), then k+1, then k+2 signed by a foreign key and k+2 with another body under the genuine signature, then k+2.
+// Having seen a block before must not vouch for anything offered later.
+func vlEarly(t *testing.T, P, F *vlNode, sec, otherSec cipher.SecKey, keyOf map[cipher.Address]cipher.SecKey, dst cipher.Address,
+	offer func(string, coin.SignedBlock, bool, bool, map[int]bool) bool) {
+	handOn := func(N *vlNode, txns coin.Transactions, when uint64) coin.SignedBlock {
+		var head *coin.SignedBlock
+		var uxh cipher.SHA256
+		if err := N.db.View("verif early", func(tx *dbutil.Tx) error {
+			var err error
+			if head, err = N.v.blockchain.Head(tx); err != nil {
+				return err
+			}
+			uxh, err = N.v.blockchain.Unspent().GetUxHash(tx)
+			return err
+		}); err != nil {
+			t.Fatal(err)
+		}
+		if when <= head.Head.Time {
+			when = head.Head.Time + 3600
+		}
+		b, err := coin.NewBlock(head.Block, when, uxh, txns, vlZeroFee)
+		if err != nil {
+			t.Fatal(err)
+		}
+		return coin.SignedBlock{Block: *b, Sig: cipher.MustSignHash(b.HashHeader(), sec)}
+	}
+	uxs, err := P.v.GetAllUnspentOutputs()
+	if err != nil {
+		t.Fatal(err)
+	}
+	sort.Slice(uxs, func(i, j int) bool { return uxs[i].Hash().Hex() < uxs[j].Hash().Hex() })
+	var mine []coin.UxOut
+	for _, ux := range uxs {
+		if _, ok := keyOf[ux.Body.Address]; ok && ux.Body.Coins >= 1e6 {
+			mine = append(mine, ux)
+		}
+	}
+	if len(mine) < 3 {
+		return
+	}
+	spend := func(ux coin.UxOut) coin.Transaction {
+		var tx coin.Transaction
+		if err := tx.PushInput(ux.Hash()); err != nil {
+			t.Fatal(err)
+		}
+		tx.Out = append(tx.Out, coin.TransactionOutput{Address: dst, Coins: ux.Body.Coins, Hours: 0})
+		tx.SignInputs([]cipher.SecKey{keyOf[ux.Body.Address]})
+		if err := tx.UpdateHeader(); err != nil {
+			t.Fatal(err)
+		}
+		return tx
+	}
+	b1 := handOn(P, coin.Transactions{spend(mine[0])}, 0)
+	if err := P.v.ExecuteSignedBlock(b1); err != nil {
+		t.Fatalf("publisher refused a hand-made valid block: %v", err)
+	}
+	b2 := handOn(P, coin.Transactions{spend(mine[1])}, 0)
+	if offer("early-successor", b2, true, true, nil) {
+		return
+	}
+	if !offer("valid", b1, true, true, nil) {
+		return
+	}
+	if offer("seen-before-now-foreign-signature", coin.SignedBlock{Block: b2.Block, Sig: cipher.MustSignHash(b2.HashHeader(), otherSec)}, false, true, nil) {
+		return
+	}
+	rb := b2
+	rb.Body.Transactions = coin.Transactions{spend(mine[2])} // another body under the header (and signature) that was seen before
+	if offer("seen-before-now-another-body", rb, true, false, nil) {
+		return
+	}
+	offer("valid", b2, true, true, nil)
 }
